@@ -308,6 +308,13 @@ def judge(module, cfg, records, *, workers=None, keep=None, timeout=3600, extra_
         r = run(module, cfg, workers=workers, env=env, timeout=timeout)
         if keep:
             shutil.copy(path, keep)
+        kd = os.environ.get("VERIF_KEEP_TRACES")       # tools/selftest.py: keep a sample of what was judged, to corrupt it afterwards
+        if kd:
+            os.makedirs(kd, exist_ok=True)
+            n = len([f for f in os.listdir(kd) if f.endswith(".json")])
+            with open(os.path.join(kd, "%03d-%s.json" % (n, module)), "w") as f:
+                json.dump({"module": module, "cfg": cfg, "extra_env": extra_env or {}, "records": records[:300] + records[-100:],
+                           "flagged": sorted({t[1] for t in r.tuples if len(t) > 1 and isinstance(t[1], str)})}, f, default=str)
         return r
     finally:
         shutil.rmtree(d, ignore_errors=True)
